@@ -674,43 +674,24 @@ def check(ctx: Ctx, col: Collector, tier: str) -> None:
     npa = 0
     for rel, mi in repo.modules.items():
         for fi in mi.functions.values():
-            rejoined: dict[str, ast.AST] = {}
-            for n in ast.walk(fi.node):
-                # Path("/".join(p.parts[...])): for an absolute path parts[0] is "/", the join starts with "//", which pathlib keeps as another root
-                if isinstance(n, ast.Call) and isinstance(n.func, ast.Attribute) and n.func.attr == "join" and isinstance(n.func.value, ast.Constant) and n.func.value.value in ("/", "\\") \
-                        and n.args and any(isinstance(x, ast.Attribute) and x.attr == "parts" for x in ast.walk(n.args[0])):
-                    tgt = repo.parent(n)
-                    while tgt is not None and not isinstance(tgt, (ast.Assign, ast.AnnAssign)) and tgt is not fi.node:
-                        tgt = repo.parent(tgt)
-                    if isinstance(tgt, ast.Assign) and len(tgt.targets) == 1 and isinstance(tgt.targets[0], ast.Name):
-                        rejoined[tgt.targets[0].id] = n
-                    else:
-                        rejoined[f"<expr:{n.lineno}>"] = n
-            # names derived from a re-joined path
-            changed = True
-            while changed:
-                changed = False
-                for n in ast.walk(fi.node):
-                    if isinstance(n, ast.Assign) and len(n.targets) == 1 and isinstance(n.targets[0], ast.Name) and n.targets[0].id not in rejoined \
-                            and any(isinstance(x, ast.Name) and x.id in rejoined for x in ast.walk(n.value)):
-                        rejoined[n.targets[0].id] = rejoined[next(x.id for x in ast.walk(n.value) if isinstance(x, ast.Name) and x.id in rejoined)]
-                        changed = True
-            for n in ast.walk(fi.node):
-                if isinstance(n, ast.Call) and isinstance(n.func, ast.Attribute) and n.func.attr == "relative_to":
-                    npa += 1
-                    col.touched(fi)
-                    roots = [x.id for x in ast.walk(n.func.value) if isinstance(x, ast.Name) and x.id in rejoined]
-                    key = f"{rel}::{fi.qualname}::relative_to::{ast.unparse(n)[:50]}"
-                    if roots:
-                        src = rejoined[roots[0]]
-                        col.bad("C01.PATH-ARITH", key, repo.loc(rel, n), f"`{roots[0]}` comes from `{ast.unparse(src)[:60]}` (line {src.lineno})",
-                                f"{fi.qualname}: `{ast.unparse(n)[:60]}` raises ValueError for a path re-assembled with `{ast.unparse(src)[:50]}`: the parts of an absolute path start with '/', "
-                                f"the join starts with '//', and pathlib treats '//x' as a different root than '/x' (a class or function re-exported by an __init__.py and named like that package, "
-                                f"`textlib/__init__.py: from .core import textlib`, aborts the run after the API file was written)")
-                    else:
-                        col.ok("C01.PATH-ARITH", key, repo.loc(rel, n), "the receiver is derived with pathlib operations only")
-    if npa < 1:
-        raise AnalysisError("no relative_to() call site found")
+            for n, src in relative_to_sites(fi.node, repo.parent):
+                npa += 1
+                col.touched(fi)
+                key = f"{rel}::{fi.qualname}::relative_to::{ast.unparse(n)[:50]}"
+                if src is not None:
+                    col.bad("C01.PATH-ARITH", key, repo.loc(rel, n), f"the receiver comes from `{ast.unparse(src)[:60]}` (line {src.lineno})",
+                            f"{fi.qualname}: `{ast.unparse(n)[:60]}` raises ValueError for a path re-assembled with `{ast.unparse(src)[:50]}`: the parts of an absolute path start with '/', "
+                            f"the join starts with '//', and pathlib treats '//x' as a different root than '/x' (a class or function re-exported by an __init__.py and named like that package, "
+                            f"`textlib/__init__.py: from .core import textlib`, aborts the run after the API file was written)")
+                else:
+                    col.ok("C01.PATH-ARITH", key, repo.loc(rel, n), "the receiver is derived with pathlib operations only")
+    # the recogniser is exercised on a positive example on every run (the rule's expected count on the tree may be zero)
+    ex = ast.parse("def f(out, d):\n    c = Path('/'.join(d.parts[:-1]))\n    p = c / 'x'\n    return p.parent.relative_to(out)\n").body[0]
+    pm = {id(ch): par for par in ast.walk(ex) for ch in ast.iter_child_nodes(par)}
+    hit = [src for _n, src in relative_to_sites(ex, lambda x: pm.get(id(x)))]
+    if len(hit) != 1 or hit[0] is None:
+        raise AnalysisError("C01.PATH-ARITH: the recogniser no longer flags its positive example")
+    col.ok("C01.PATH-ARITH", "selftest::positive-example", "-", f"the recogniser flags the re-joined path of its embedded example; {npa} relative_to() site(s) on the tree", nontrivial=npa == 0)
 
     # ------------------------------------------------------------------ IMPORT-SOURCE
     nq = 0
@@ -1094,6 +1075,36 @@ def component_getters(repo) -> set[str]:
             rets = [n for n in ast.walk(fi.node) if isinstance(n, ast.Return)]
             if len(ps) == 1 and rets and all(r.value is not None and re.fullmatch(rf"{re.escape(ps[0])}(\.\w+)+", ast.unparse(r.value)) for r in rets):
                 out.add(fi.name)
+    return out
+
+
+def relative_to_sites(fnode: ast.AST, parent) -> list[tuple[ast.Call, ast.AST | None]]:
+    """relative_to() call sites of a function with, for each, the string re-assembly of path parts that reaches its receiver (None if none)."""
+    rejoined: dict[str, ast.AST] = {}
+    for n in ast.walk(fnode):
+        # Path("/".join(p.parts[...])): for an absolute path parts[0] is "/", the join starts with "//", which pathlib keeps as another root
+        if isinstance(n, ast.Call) and isinstance(n.func, ast.Attribute) and n.func.attr == "join" and isinstance(n.func.value, ast.Constant) and n.func.value.value in ("/", "\\") \
+                and n.args and any(isinstance(x, ast.Attribute) and x.attr == "parts" for x in ast.walk(n.args[0])):
+            tgt = parent(n)
+            while tgt is not None and not isinstance(tgt, (ast.Assign, ast.AnnAssign)) and tgt is not fnode:
+                tgt = parent(tgt)
+            if isinstance(tgt, ast.Assign) and len(tgt.targets) == 1 and isinstance(tgt.targets[0], ast.Name):
+                rejoined[tgt.targets[0].id] = n
+            else:
+                rejoined[f"<expr:{n.lineno}>"] = n
+    changed = True
+    while changed:
+        changed = False
+        for n in ast.walk(fnode):
+            if isinstance(n, ast.Assign) and len(n.targets) == 1 and isinstance(n.targets[0], ast.Name) and n.targets[0].id not in rejoined \
+                    and any(isinstance(x, ast.Name) and x.id in rejoined for x in ast.walk(n.value)):
+                rejoined[n.targets[0].id] = rejoined[next(x.id for x in ast.walk(n.value) if isinstance(x, ast.Name) and x.id in rejoined)]
+                changed = True
+    out = []
+    for n in ast.walk(fnode):
+        if isinstance(n, ast.Call) and isinstance(n.func, ast.Attribute) and n.func.attr == "relative_to":
+            roots = [x.id for x in ast.walk(n.func.value) if isinstance(x, ast.Name) and x.id in rejoined]
+            out.append((n, rejoined[roots[0]] if roots else None))
     return out
 
 
